@@ -11,7 +11,7 @@ import ast
 import itertools
 
 from sa.astutil import norm, walk_no_nested
-from sa.c17_util import BV, Tok, TypeVal, Sim, Elaborator, ModelFault, Inst, Sig
+from sa.c17_util import BV, Tok, TypeVal, Sim, Elaborator, ModelFault, Inst, Sig, signature
 from sa.errors import AnalysisError
 from sa.loader import Repo, Module
 from sa.minieval import Evaluator
@@ -26,6 +26,8 @@ CLQ = 'pymtl3/stdlib/queues/cl_queues.py'
 REGS = 'pymtl3/stdlib/basic_rtl/registers.py'
 RF = 'pymtl3/stdlib/basic_rtl/register_files.py'
 ARITH = 'pymtl3/stdlib/basic_rtl/arithmetics.py'
+SRI = 'pymtl3/stdlib/ifcs/send_recv_ifcs.py'
+GGI = 'pymtl3/stdlib/ifcs/get_give_ifcs.py'
 
 EXPLANATION = (
     "Static analysis of the library queues (stdlib/queues/queues.py, stdlib/stream/queues.py, enrdy_queues.py, "
@@ -59,8 +61,15 @@ EXPLANATION = (
     "before both rdy methods). "
     "R-C17-siblings compares the copies with each other without a specification: controllers / 1-entry queues of one kind "
     "across the interface families as canonical transition relations (n, occupancy, enq_xfer, deq_xfer) -> occupancy' with "
-    "transfers taken from each copy's own ready/valid outputs. Every rule carries an embedded defective example that must "
-    "be flagged on every run. "
+    "transfers taken from each copy's own ready/valid outputs. "
+    "R-C17-history decides that the elaborated queue is a function of its construct parameters only: module-level helper "
+    "functions called from construct are interpreted together with the module-level containers they read / write, and every "
+    "class is elaborated for capacities 1..12 on its own and after all other capacities (ascending and descending); the "
+    "netlists (constants, signal types, structure) must coincide. "
+    "R-C17-copy decides that every method of the CL queues and of the CL/FL/RTL adapters in send_recv_ifcs.py / "
+    "get_give_ifcs.py that keeps an incoming message beyond the call (parameter or alias assigned to an attribute / element "
+    "of the component or inserted into one of its containers) keeps a private copy (clone_deepcopy / deepcopy / .clone()). "
+    "Every rule carries an embedded defective example that must be flagged on every run. "
     "Known finding: BypassQueue2RTL (chain of two 1-entry bypass queues) has enq.rdy low with one of two entries occupied. "
     "NOT decided: FIFO order / no loss over arbitrary histories and arbitrary capacities (only the one-cycle step relation "
     "from representation-consistent states for n <= 4 (8) is evaluated; the inductive conclusion is not claimed beyond "
@@ -1103,17 +1112,31 @@ def _cl_check(r, m, classes):
         def q_of(e, f):
             return isinstance(e, ast.Attribute) and e.attr == qattr and norm(e.value) == f.args.args[0].arg
 
+        def is_msg(e, names):
+            """the message parameter, an alias of it, or a copy of either"""
+            if isinstance(e, ast.Name):
+                return e.id in names
+            if _is_copy(e) and not e.keywords:
+                if norm(e.func) in COPY_FUNCS:
+                    return len(e.args) >= 1 and is_msg(e.args[0], names)
+                return is_msg(e.func.value, names)
+            return False
+
         def run(f, L, arg=None):
             """returns (list after, returned value)"""
             body = [s for s in f.body if not (isinstance(s, ast.Expr) and isinstance(s.value, ast.Constant))]
+            names = {f.args.args[1].arg} if len(f.args.args) == 2 else set()
+            while len(body) > 1 and isinstance(body[0], ast.Assign) and len(body[0].targets) == 1 \
+                    and isinstance(body[0].targets[0], ast.Name) and is_msg(body[0].value, names):
+                names.add(body[0].targets[0].id)     # m = clone_deepcopy( msg )
+                body = body[1:]
             if len(body) != 1:
                 raise AnalysisError(f"{cname}.{f.name}: body outside the model")
             st = body[0]
             e = st.value if isinstance(st, (ast.Expr, ast.Return)) else None
             if isinstance(e, ast.Call) and isinstance(e.func, ast.Attribute) and q_of(e.func.value, f) and not e.keywords:
                 op = e.func.attr
-                if op in ('append', 'appendleft') and len(e.args) == 1 and isinstance(e.args[0], ast.Name) \
-                        and len(f.args.args) == 2 and e.args[0].id == f.args.args[1].arg and isinstance(st, ast.Expr):
+                if op in ('append', 'appendleft') and len(e.args) == 1 and is_msg(e.args[0], names) and isinstance(st, ast.Expr):
                     return ([arg] + L if op == 'appendleft' else L + [arg]), None
                 if op in ('pop', 'popleft') and not e.args and isinstance(st, ast.Return):
                     return (L[:-1], L[-1]) if op == 'pop' else (L[1:], L[0])
@@ -1143,6 +1166,207 @@ def _cl_check(r, m, classes):
             r.ok(m, cname, cons)
 
 
+# ---------------------------------------------------------------------------
+# construction-history independence
+HIST_CAPS = 12
+_HIST_PROBE_REL = 'pymtl3/stdlib/stream/c17_embedded_history_probe_.py'
+_HIST_PROBE_SRC = '''
+from pymtl3 import *
+
+_cache = {}
+
+def _consts( T, n ):
+  if T not in _cache:              # planted: the cache key forgets the capacity
+    _cache[ T ] = T( n-1 )
+  return _cache[ T ]
+
+class ProbeCtrl( Component ):
+  def construct( s, num_entries=2 ):
+    T = mk_bits( clog2( num_entries ) )
+    s.last_idx = _consts( T, num_entries )
+    s.ptr = Wire( T )
+'''
+
+
+def _history_diffs(repo, rel, cls, args, caps):
+    """elaborate the class for every capacity alone (initial module state) and after all other capacities were
+    elaborated before it (ascending and descending); returns (touched module-level objects, list of differences)"""
+    fresh, touched = {}, set()
+    e0 = Elaborator(repo)
+    for n in caps:
+        a, kw = args(n)
+        try:
+            fresh[n] = signature(e0.build(rel, cls, *a, **kw))
+        except ModelFault as ex:
+            fresh[n] = {'<elaboration>': str(ex)}
+        touched |= e0.touched
+    diffs = []
+    if not touched:
+        return touched, diffs
+    for order in (list(caps), list(reversed(caps))):
+        eh = Elaborator(repo)
+        prev = None
+        for n in order:
+            a, kw = args(n)
+            try:
+                sg = signature(eh.build(rel, cls, *a, keep_state=True, **kw))
+            except ModelFault as ex:
+                sg = {'<elaboration>': str(ex)}
+            for k in sorted(set(sg) | set(fresh[n])):
+                if sg.get(k) != fresh[n].get(k):
+                    diffs.append((n, prev, k, sg.get(k), fresh[n].get(k)))
+            prev = n
+    return touched, diffs
+
+
+def rule_history(repo):
+    r = RuleResult('R-C17-history', "the elaborated queue (capacity constants, signal types, structure) is a function of its "
+                                    "construct parameters only: elaborating the same class after other capacities gives the "
+                                    "same netlist (module-level helper functions are interpreted with their module state)")
+    # embedded positive example
+    prepo = Repo(repo.root, dict(repo.overlay, **{_HIST_PROBE_REL: _HIST_PROBE_SRC}))
+    t, d = _history_diffs(prepo, _HIST_PROBE_REL, 'ProbeCtrl', lambda n: ((n,), {}), range(2, 9))
+    if not t or not d:
+        raise AnalysisError("R-C17-history: the embedded positive example was not flagged")
+    for tg in _targets():
+        mod = repo.mod(tg['rel'])
+        cls = mod.get_class(tg['cls'])
+        caps = [1, 1] if tg['level'] == 'one' or tg['enc'] is EncChain else list(range(min(tg['ns']), HIST_CAPS + 1))
+        touched, diffs = _history_diffs(repo, tg['rel'], tg['cls'], tg['args'], caps)
+        r.evaluations += len(caps) * (3 if touched else 1)
+        if not touched:
+            r.ok(mod, tg['cls'], 'construct reads no module-level mutable state', nontrivial=False)
+            continue
+        what = ', '.join(sorted(f"{n} ({rel.split('/')[-1]})" for rel, n in touched))
+        cons = f"construct depends on module-level state {what}"
+        if diffs:
+            n, prev, k, got, want = diffs[0]
+            keys = sorted({d[2] for d in diffs})
+            r.bad(mod, tg['cls'], f"{cons} -- history-dependent: {', '.join(keys[:4])}",
+                  f"{tg['cls']} with capacity {n} elaborated after capacity {prev}: {k} is {got}, built on its own it is {want}; "
+                  f"the capacity constants must be a function of num_entries only ({len(diffs)} differences over capacities "
+                  f"{caps[0]}..{caps[-1]})", cls.lineno)
+        else:
+            r.ok(mod, tg['cls'], cons, note=f"same netlist for capacities {caps[0]}..{caps[-1]} in ascending / descending order")
+    r.require_floor(25)
+    return r
+
+
+# ---------------------------------------------------------------------------
+# stored messages are private copies
+COPY_FUNCS = {'clone_deepcopy', 'deepcopy', 'copy.deepcopy', 'copy.copy'}
+COPY_METHODS = {'clone', '__deepcopy__', '__copy__', 'copy'}
+STORE_METHODS = {'append', 'appendleft', 'insert', 'extend', 'extendleft', 'add', 'put', 'push'}
+_COPY_PROBE_SRC = '''
+class ProbeAdapter( Component ):
+  @non_blocking( lambda s : s.entry is None )
+  def recv( s, msg ):
+    m = msg
+    s.entry = m                      # planted: alias of the caller's object kept beyond the call
+  def good( s, msg ):
+    s.entry = clone_deepcopy( msg )
+  def fwd( s, msg ):
+    s.send( msg )
+'''
+
+
+def _is_copy(e):
+    return isinstance(e, ast.Call) and (norm(e.func) in COPY_FUNCS or
+                                        (isinstance(e.func, ast.Attribute) and e.func.attr in COPY_METHODS))
+
+
+def _uncopied(e, tainted):
+    """names of `tainted` that occur in e outside a copying call"""
+    if _is_copy(e):
+        return set()
+    if isinstance(e, ast.Name):
+        return {e.id} & tainted
+    out = set()
+    for ch in ast.iter_child_nodes(e):
+        out |= _uncopied(ch, tainted)
+    return out
+
+
+def _copy_check(r, m, scope):
+    """every method (not construct, not an update block) that keeps a parameter beyond the call -- assignment to an
+    attribute / element of self, or insertion into a container of self -- must keep a copy"""
+    for cname, cls in sorted(m.classes.items()):
+        if scope is not None and cname not in scope:
+            continue
+        for f in m.methods(cname).values():
+            if f.name in ('construct', 'line_trace', '__str__', 'connect') or len(f.args.args) < 2:
+                continue
+            me = f.args.args[0].arg
+            tainted = {a.arg for a in f.args.args[1:]} | {a.arg for a in f.args.kwonlyargs}
+            # aliases: x = msg (no copy)
+            changed = True
+            while changed:
+                changed = False
+                for st in walk_no_nested(f):
+                    if isinstance(st, ast.Assign) and all(isinstance(t, ast.Name) for t in st.targets) and _uncopied(st.value, tainted):
+                        for t in st.targets:
+                            if t.id not in tainted:
+                                tainted.add(t.id)
+                                changed = True
+
+            # names bound to a copy of the message (m = clone_deepcopy( msg )): storing them is a copying store
+            clean = set()
+            for st in walk_no_nested(f):
+                if isinstance(st, ast.Assign) and all(isinstance(t, ast.Name) for t in st.targets) \
+                        and not _uncopied(st.value, tainted) \
+                        and any(isinstance(n, ast.Name) and n.id in tainted | clean for n in ast.walk(st.value)):
+                    clean |= {t.id for t in st.targets} - tainted
+
+            def on_self(e):
+                while isinstance(e, (ast.Attribute, ast.Subscript)):
+                    e = e.value
+                return isinstance(e, ast.Name) and e.id == me
+            stores = []
+            for st in walk_no_nested(f):
+                if isinstance(st, (ast.Assign, ast.AugAssign, ast.AnnAssign)):
+                    tg = st.targets if isinstance(st, ast.Assign) else [st.target]
+                    if st.value is not None and any(isinstance(t, (ast.Attribute, ast.Subscript)) and on_self(t) for t in tg):
+                        stores.append((st, st.value))
+                elif isinstance(st, ast.Call) and isinstance(st.func, ast.Attribute) and st.func.attr in STORE_METHODS \
+                        and isinstance(st.func.value, (ast.Attribute, ast.Subscript)) and on_self(st.func.value):
+                    for a in st.args:
+                        stores.append((st, a))
+            for st, val in stores:
+                leak = _uncopied(val, tainted)
+                involved = any(isinstance(n, ast.Name) and n.id in tainted | clean for n in ast.walk(val))
+                if not involved:
+                    continue
+                tgt = (st.targets[0] if isinstance(st, ast.Assign) else st.target) if not isinstance(st, ast.Call) else st.func.value
+                while isinstance(tgt, (ast.Attribute, ast.Subscript)) and not (isinstance(tgt, ast.Attribute) and
+                                                                                 isinstance(tgt.value, ast.Name)):
+                    tgt = tgt.value
+                where = f"s.{tgt.attr}" if isinstance(tgt, ast.Attribute) else 's'
+                names = sorted({n.id for n in ast.walk(val) if isinstance(n, ast.Name) and n.id in tainted | clean})
+                cons = f"keeps `{names[0]}` in {where} " + ('without a copy' if leak else 'as a copy')
+                if leak:
+                    r.bad(m, f"{cname}.{f.name}", cons,
+                          f"the incoming message `{sorted(leak)[0]}` is kept beyond the call without a copy: a caller that re-uses "
+                          f"or mutates its message object afterwards changes what is delivered later (store "
+                          f"clone_deepcopy(...) / deepcopy(...) / .clone())", st.lineno)
+                else:
+                    r.ok(m, f"{cname}.{f.name}", cons)
+
+
+def rule_copy(repo):
+    r = RuleResult('R-C17-copy', "every adapter / CL queue method that keeps an incoming message beyond the call (assignment "
+                                 "of a parameter to an attribute or insertion into a container of the component) keeps a private "
+                                 "copy, so the message delivered is the message accepted")
+    probe = RuleResult('probe', '')
+    _copy_check(probe, Module(repo, 'c17_embedded_copy_probe_.py', _COPY_PROBE_SRC), None)
+    if [f.func for f in probe.findings] != ['ProbeAdapter.recv'] or len(probe.instances) != 2:
+        raise AnalysisError(f"R-C17-copy: the embedded positive example was not judged as expected "
+                            f"({[(i['function'], i['verdict']) for i in probe.instances]})")
+    for rel in (SRI, GGI, CLQ):
+        _copy_check(r, repo.mod(rel), None)
+    r.require_floor(5)
+    return r
+
+
 def rule_wide(repo):
     """thorough tier: the same equations for the larger capacities 5..8 (controllers and complete n-entry queues)"""
     r = RuleResult('R-C17-wide', "thorough tier: ready/valid, occupancy / pointer updates, delivered message and stored "
@@ -1157,7 +1381,7 @@ def rule_wide(repo):
     return r
 
 
-RULES = [rule_rdy, rule_count, rule_step, rule_siblings, rule_cl]
+RULES = [rule_rdy, rule_count, rule_step, rule_siblings, rule_cl, rule_history, rule_copy]
 THOROUGH_RULES = [rule_wide]
 
 # ---------------------------------------------------------------------------
@@ -1193,6 +1417,14 @@ MUTANTS = [
        "s.mux_sel //= lambda: s.count != CountType(0)", 'R-C17-count'),
     _m('q-normal-enq-rdy-msb-test', Q, "s.enq_rdy //= lambda: ~s.reset & ( s.count < s.num_entries )",
        "s.enq_rdy //= lambda: ~s.reset & ~s.count[ count_nbits-1 ]", 'R-C17-rdy', 'first'),     # only wrong for non powers of two
+    dict(name='q-ctrl-consts-cached-by-type', rule='R-C17-history', edits=[   # depth 6 built after depth 5 reuses capacity 5
+        dict(file=Q, old="#-------------------------------------------------------------------------\n# Dpath and Ctrl for NormalQueueRTL",
+             new="_ctrl_consts = {}\n\ndef _mk_ctrl_consts( PtrType, CountType, num_entries ):\n  key = ( PtrType, CountType )\n"
+                 "  if key not in _ctrl_consts:\n    _ctrl_consts[ key ] = ( PtrType( num_entries-1 ), CountType( num_entries ) )\n"
+                 "  return _ctrl_consts[ key ]\n\n"
+                 "#-------------------------------------------------------------------------\n# Dpath and Ctrl for NormalQueueRTL", count=1),
+        dict(file=Q, old="    s.last_idx    = PtrType  ( num_entries-1 )\n    s.num_entries = CountType( num_entries   )\n",
+             new="    s.last_idx, s.num_entries = _mk_ctrl_consts( PtrType, CountType, num_entries )\n", count=3)]),
     # -- queues.py: 1-entry queues
     _m('q-normal1-full-ignores-deq', Q, "s.full <<= ~s.reset & ( ~s.deq.en & (s.enq.en | s.full) )",
        "s.full <<= ~s.reset & ( s.enq.en | s.full )", 'R-C17-count', 'first'),
@@ -1275,6 +1507,27 @@ MUTANTS = [
     _m('vr-bypass1-deq-val', VR, "s.deq.val @= s.full | s.enq.val", "s.deq.val @= s.full", 'R-C17-rdy'),
     _m('vr-free-entries', VR, "s.num_free_entries @= zext( s.deq_ptr - s.enq_ptr, SizeType )",
        "s.num_free_entries @= zext( s.enq_ptr - s.deq_ptr, SizeType )", 'R-C17-count'),
+    # -- stored messages must be private copies (the five sites repaired after this rule found them, and the seeded one)
+    _m('adapter-recvcl2sendrtl-no-copy', SRI, "  def recv( s, msg ):\n    s.entry = clone_deepcopy( msg )\n\n  def line_trace( s ):\n    return \"{}(){}\".format( s.recv, s.send )\n\n#-------------------------------------------------------------------------\n# RecvRTL2SendCL",
+       "  def recv( s, msg ):\n    s.entry = msg\n\n  def line_trace( s ):\n    return \"{}(){}\".format( s.recv, s.send )\n\n#-------------------------------------------------------------------------\n# RecvRTL2SendCL", 'R-C17-copy'),
+    _m('adapter-recvcl2sendrtl-alias-stored', SRI, "    s.entry = clone_deepcopy( msg )", "    m = msg\n    s.entry = m", 'R-C17-copy', 'first'),
+    _m('adapter-recvfl2sendrtl-no-copy', SRI, "      greenlet.getcurrent().parent.switch(0)\n    s.entry = clone_deepcopy( msg )",
+       "      greenlet.getcurrent().parent.switch(0)\n    s.entry = msg", 'R-C17-copy'),
+    _m('adapter-recvcl2givefl-no-copy', GGI, "    s.entry = clone_deepcopy( msg )", "    s.entry = msg", 'R-C17-copy'),
+    _m('cl-pipe-enq-no-copy', CLQ, "s.queue.appendleft( clone_deepcopy( msg ) )", "s.queue.appendleft( msg )", 'R-C17-copy', 'first'),
+    dict(name='cl-bypass-enq-no-copy', rule='R-C17-copy', edits=[
+        dict(file=CLQ, old="  @non_blocking( lambda s: len( s.queue ) < s.queue.maxlen )\n  def enq( s, msg ):\n    s.queue.appendleft( clone_deepcopy( msg ) )\n\n"
+                           "  @non_blocking( lambda s: len( s.queue ) > 0 )\n  def deq( s ):\n    return s.queue.pop()\n\n"
+                           "  @non_blocking( lambda s: len( s.queue ) > 0 )\n  def peek( s ):\n    return s.queue[-1]\n\n"
+                           "  def line_trace( s ):\n    return \"{}( ){}\".format( s.enq, s.deq )\n\n"
+                           "#-------------------------------------------------------------------------\n# NormalQueueCL",
+             new="  @non_blocking( lambda s: len( s.queue ) < s.queue.maxlen )\n  def enq( s, msg ):\n    s.queue.appendleft( msg )\n\n"
+                 "  @non_blocking( lambda s: len( s.queue ) > 0 )\n  def deq( s ):\n    return s.queue.pop()\n\n"
+                 "  @non_blocking( lambda s: len( s.queue ) > 0 )\n  def peek( s ):\n    return s.queue[-1]\n\n"
+                 "  def line_trace( s ):\n    return \"{}( ){}\".format( s.enq, s.deq )\n\n"
+                 "#-------------------------------------------------------------------------\n# NormalQueueCL", count=1)]),
+    _m('cl-normal-enq-no-copy', CLQ, "  @non_blocking( lambda s: s.enq_rdy )\n  def enq( s, msg ):\n    s.queue.appendleft( clone_deepcopy( msg ) )",
+       "  @non_blocking( lambda s: s.enq_rdy )\n  def enq( s, msg ):\n    s.queue.appendleft( msg )", 'R-C17-copy'),
     # -- stdlib/queues/cl_queues.py
     _m('cl-pipe-enq-guard-le', CLQ, "lambda s: len( s.queue ) < s.queue.maxlen", "lambda s: len( s.queue ) <= s.queue.maxlen",
        'R-C17-cl', 'first'),
@@ -1283,7 +1536,7 @@ MUTANTS = [
     _m('cl-bypass-constraint-reversed', CLQ, "M( s.enq    ) < M( s.deq     ),", "M( s.enq    ) > M( s.deq     ),", 'R-C17-cl'),
     _m('cl-pipe-constraint-dropped', CLQ, "M( s.peek   ) < M( s.enq  ),\n      M( s.deq    ) < M( s.enq  )",
        "M( s.peek   ) < M( s.enq  ),", 'R-C17-cl'),
-    _m('cl-enq-same-end', CLQ, "s.queue.appendleft( msg )", "s.queue.append( msg )", 'R-C17-cl', 'first'),
+    _m('cl-enq-same-end', CLQ, "s.queue.appendleft( clone_deepcopy( msg ) )", "s.queue.append( clone_deepcopy( msg ) )", 'R-C17-cl', 'first'),
     _m('cl-deq-same-end', CLQ, "return s.queue.pop()", "return s.queue.popleft()", 'R-C17-cl', 'first'),
     _m('cl-peek-wrong-end', CLQ, "return s.queue[-1]", "return s.queue[0]", 'R-C17-cl', 'first'),
     _m('cl-normal-pulse-ge', CLQ, "s.deq_rdy = len( s.queue ) > 0", "s.deq_rdy = len( s.queue ) >= 0", 'R-C17-cl'),
@@ -1327,6 +1580,19 @@ EQUIV = [
        "      if ~s.enq_xfer & s.deq_xfer:\n        s.count <<= s.count - CountType(1)\n"
        "      if s.reset:\n        s.head  <<= PtrType(0)\n        s.tail  <<= PtrType(0)\n        s.count <<= CountType(0)\n",
        None, 'first'),
+    dict(name='q-ctrl-consts-memoised-by-capacity', edits=[
+        dict(file=Q, old="#-------------------------------------------------------------------------\n# Dpath and Ctrl for NormalQueueRTL",
+             new="_ctrl_consts = {}\n\ndef _mk_ctrl_consts( PtrType, CountType, num_entries ):\n  key = ( PtrType, CountType, num_entries )\n"
+                 "  if key not in _ctrl_consts:\n    _ctrl_consts[ key ] = ( PtrType( num_entries-1 ), CountType( num_entries ) )\n"
+                 "  return _ctrl_consts[ key ]\n\n"
+                 "#-------------------------------------------------------------------------\n# Dpath and Ctrl for NormalQueueRTL", count=1),
+        dict(file=Q, old="    s.last_idx    = PtrType  ( num_entries-1 )\n    s.num_entries = CountType( num_entries   )\n",
+             new="    s.last_idx, s.num_entries = _mk_ctrl_consts( PtrType, CountType, num_entries )\n", count=3)]),
+    _m('adapter-copy-via-clone-method', SRI, "s.entry = clone_deepcopy( msg )", "s.entry = msg.clone()", None, 'first'),
+    _m('adapter-copy-via-deepcopy', GGI, "    s.entry = clone_deepcopy( msg )", "    s.entry = deepcopy( msg )"),
+    _m('cl-copy-via-local', CLQ, "    s.queue.appendleft( clone_deepcopy( msg ) )", "    m = msg.clone()\n    s.queue.appendleft( m )", None, 'first'),
+    _m('cl-copy-via-deepcopy', CLQ, "  @non_blocking( lambda s: s.enq_rdy )\n  def enq( s, msg ):\n    s.queue.appendleft( clone_deepcopy( msg ) )",
+       "  @non_blocking( lambda s: s.enq_rdy )\n  def enq( s, msg ):\n    s.queue.appendleft( copy.deepcopy( msg ) )"),
     _m('st-not-full-as-ne', ST, "s.recv_rdy  //= lambda: s.count < num_entries", "s.recv_rdy  //= lambda: s.count != num_entries"),
     _m('st-1entry-reset-last', ST,
        "      if s.reset:\n        s.full <<= 0\n      else:\n        s.full <<= (s.recv.val & ~s.full) | (s.full & ~s.send.rdy)\n",
@@ -1353,7 +1619,7 @@ EQUIV = [
        None, 'first'),
     _m('cl-constraint-as-gt', CLQ, "M( s.deq    ) < M( s.enq  )", "M( s.enq  ) > M( s.deq    )"),
     dict(name='cl-ends-switched-consistently', edits=[
-        dict(file=CLQ, old="s.queue.appendleft( msg )", new="s.queue.append( msg )", count='first'),
+        dict(file=CLQ, old="s.queue.appendleft( clone_deepcopy( msg ) )", new="s.queue.append( clone_deepcopy( msg ) )", count='first'),
         dict(file=CLQ, old="return s.queue.pop()", new="return s.queue.popleft()", count='first'),
         dict(file=CLQ, old="return s.queue[-1]", new="return s.queue[0]", count='first')]),
 ]
@@ -1366,7 +1632,8 @@ LEVEL_TEXT = ("Static analysis of the queue sources: every RTL queue / controlle
               "ready/valid equations, occupancy and pointer updates, delivered message and stored sequence after the edge "
               "(which also decides the wrapper / data-path / register-file wiring); the cycle-level queues are decided from their "
               "guards (two-phase evaluation over small integers in every enq/deq order the extracted method constraints allow), "
-              "deque ends and method-order constraints; sibling copies are compared with each other. It covers all "
+              "deque ends and method-order constraints; sibling copies are compared with each other; elaboration is checked to be "
+              "independent of construction history (module-level helper state) and stored messages to be private copies. It covers all "
               "boundary cases (full/empty, simultaneous enq/deq, non-power-of-two wrap, reset) of the one-step relation, which the "
               "example-based tests do not; it does not execute pymtl3 and does not decide FIFO order over arbitrary histories "
               "or capacities.")
